@@ -336,11 +336,33 @@ func TestC05(t *testing.T) {
 // machine; each timing is the minimum of 7 runs and a breach must repeat three
 // times in a row. The allocation meter (runtime.MemStats.TotalAlloc around a
 // single-goroutine call) does not depend on timing.
-var scalingKinds = []string{"SUBSCRIBE/filters", "UNSUBSCRIBE/filters", "SUBACK/reason-codes", "PUBLISH/subscription-ids", "PUBLISH/user-properties", "CONNACK/user-properties", "CONNECT/will-user-properties", "PUBLISH/payload-bytes"}
+var scalingKinds = []string{"SUBSCRIBE/filters", "UNSUBSCRIBE/filters", "SUBACK/reason-codes", "PUBLISH/subscription-ids", "PUBLISH/user-properties", "CONNACK/user-properties", "CONNECT/will-user-properties", "PUBLISH/payload-bytes",
+	"string/ascii", "string/two-byte-characters", "string/U+FFFD", "string/continuation-bytes", "string/distinct-user-property-keys"}
+
+// stringUnits: what a string of the "string/..." kinds is made of.
+var stringUnits = map[string]string{"string/ascii": "ab", "string/two-byte-characters": "\u00e9", "string/U+FFFD": "\ufffd", "string/continuation-bytes": "\x80\xbf"}
 
 func scalingFrame(kind string, n int) []byte {
 	m := model.New(model.PUBLISH)
 	m.PacketID = 1
+	if unit, ok := stringUnits[kind]; ok {
+		// one user property whose value is n x 2 bytes of the unit (2 000 vs
+		// 64 000 bytes: inside the 65 535 limit), in a PUBLISH
+		m.TopicName = "t"
+		v := strings.Repeat(unit, 2*n/len(unit))
+		m.UserProps = []model.KV{{K: "k", V: v}}
+		m.Normalize()
+		return ref.Canonical(&m)
+	}
+	if kind == "string/distinct-user-property-keys" {
+		// n user properties with pairwise different keys
+		m.TopicName = "t"
+		for i := 0; i < n; i++ {
+			m.UserProps = append(m.UserProps, model.KV{K: fmt.Sprintf("k%05d", i), V: ""})
+		}
+		m.Normalize()
+		return ref.Canonical(&m)
+	}
 	if kind == "PUBLISH/payload-bytes" {
 		// n counts units of 256 bytes: 1000 -> 250 KiB, 32000 -> 7.8 MiB
 		m.TopicName = "t"
@@ -429,6 +451,19 @@ func scalingOf(kind string) (cpuRatio, allocRatio float64, msg string) {
 		}
 	}
 	allocRatio = allocOf(big) / allocOf(small)
+	// what a frame costs does not depend on what was decoded before it: a
+	// tiny frame of the same kind, measured before and right after the big one
+	tiny := scalingFrame(kind, 2)
+	before := allocOf(tiny)
+	_, _ = mqRead(big)
+	var a, b runtime.MemStats
+	runtime.ReadMemStats(&a)
+	_, _ = mqRead(tiny)
+	runtime.ReadMemStats(&b)
+	after := float64(b.TotalAlloc - a.TotalAlloc)
+	if after > before+16<<10 {
+		return cpuRatio, allocRatio, fmt.Sprintf("decoding a %d-byte %s frame allocates %.0f bytes; right after a %d-byte frame of the same kind was decoded, the same small frame allocates %.0f bytes: what a frame costs depends on the frame before it", len(tiny), kind, before, len(big), after)
+	}
 	switch {
 	case breaches == 3:
 		msg = fmt.Sprintf("decoding %s with 32x the elements took %.0fx the CPU time (three times in a row, min of 7 runs each); a decoder doing work proportional to the frame takes about 32x, a quadratic one about 1000x", kind, cpuRatio)
